@@ -124,6 +124,7 @@ func init() {
 	registerSystem("C03", func() *explore.System { return didSystem(didVariant{ID: "C03", Ctl: []string{"NB", "RS", "XI"}}) })
 	registerSystem("C04", func() *explore.System { return didSystem(didVariant{ID: "C04", Replays: true, EmptyID: true, Small: true, Ctl: []string{"NB", "RS", "XI"}}) })
 	registerSystem("C05", func() *explore.System { return didSystem(didVariant{ID: "C05", EmptyID: true, Ctl: []string{"NB", "RS", "XI"}}) })
+	registerSystem("C05/bulk", func() *explore.System { return didSystem(didVariant{ID: "C05/bulk", Bulk: 120, Small: true, Ctl: []string{"XI", "RS"}}) })
 	registerSystem("C11", func() *explore.System { return didSystem(didVariant{ID: "C11", Mismatch: true, EmptyID: true, StrictID: true, Small: true, Ctl: []string{"NB", "XI"}}) })
 	registerSystem("C06", func() *explore.System { return pnftSystem(pnftVariant{ID: "C06", Auth: true, StrictDelete: true, Ctl: []string{"NB", "XI"}}) })
 	registerSystem("C12", func() *explore.System { return pnftSystem(pnftVariant{ID: "C12", Wide: true, Queries: true, StrictDelete: true, Ctl: []string{"NB", "XI"}}) })
